@@ -140,3 +140,52 @@ def segwit_script_address(ex, L, net):
     claims["script_read_back"] = sand(len(s2.script) == len(script), s2.script == script)
     claims["hrp_written"] = addr[: len(NETWORKS[net].hrp) + 1] == NETWORKS[net].hrp + "1"
     return claims
+
+
+# ------------------------------------------------------------------ extended keys: version, key kind, depth rules, network
+from btclib.bip32 import bip32 as _bip32
+from btclib.bip32.bip32 import BIP32KeyData
+from btclib import network as _network
+
+# SLIP-0132's registered version bytes (transcribed): (private, public, network type)
+_SLIP132 = [("0488ade4", "0488b21e", "main"), ("049d7878", "049d7cb2", "main"), ("0295b005", "0295b43f", "main"), ("04b2430c", "04b24746", "main"), ("02aa7a99", "02aa7ed3", "main"),
+            ("04358394", "043587cf", "test"), ("044a4e28", "044a5262", "test"), ("024285b5", "024289ef", "test"), ("045f18bc", "045f1cf6", "test"), ("02575048", "02575483", "test")]
+
+
+@ob("C06", "extended_key_payload_is_accepted_exactly_by_bip32_and_slip132", quick=[dict(depth0=d) for d in (0, 1)],
+    bound="a 78-octet Base58Check payload with version (4 octets), depth, parent fingerprint, index, the key's first octet and its 32 remaining octets symbolic (chain code concrete): BIP32KeyData.b58decode "
+          "accepts exactly a SLIP-0132 private version with a 0x00-prefixed scalar in 1..n-1, or a public version with a 02/03-prefixed x-coordinate of the curve, and a depth of zero only with a zero "
+          "fingerprint and index; the network read off the version is of the version's type; b58encode writes the 78 octets back",
+    stubs=_B58_STUB + ["'x is the abscissa of a curve point' is an arbitrary bit (the curve arithmetic is C01's subject)"],
+    functions=["btclib.bip32.bip32.BIP32KeyData.b58decode", "btclib.bip32.bip32.BIP32KeyData.parse", "btclib.bip32.bip32._assert_valid_key", "btclib.bip32.bip32._assert_valid_depth_and_index",
+               "btclib.bip32.bip32.BIP32KeyData.b58encode"], timeout=600, min_ok=1)
+def xkey_payload(ex, depth0):
+    ver = ex.bytes("ver", 4)
+    depth = 0 if depth0 else ex.int("depth", 1, 255)
+    fp = ex.bytes("fp", 4)
+    index = ex.int("index", 0, 0xFFFFFFFF)
+    k0 = ex.int("k0", 0, 255)
+    body = ex.bytes("key", 32)
+    on_curve = ex.int("on_curve", 0, 1)
+    payload = ver + depth.to_bytes(1, "big") + fp + index.to_bytes(4, "big") + b"\x33" * 32 + k0.to_bytes(1, "big") + body
+    codec = _Codec(ex, payload)
+    codec.install()
+    ex.stub(_bip32._cached_base58_decode, lambda a: codec.decode(a))
+    ex.stub(_bip32._is_x_coordinate_var, lambda x, ec: on_curve == 1)
+    q = int.from_bytes(body, "big")
+    is_prv = sor(*[ver == bytes.fromhex(p) for p, _, _ in _SLIP132])
+    is_pub = sor(*[ver == bytes.fromhex(p) for _, p, _ in _SLIP132])
+    key_ok = sor(sand(is_prv, k0 == 0, 0 < q, q < N), sand(is_pub, sor(k0 == 2, k0 == 3), on_curve == 1))
+    depth_ok = True if not depth0 else sand(fp == b"\x00" * 4, index == 0)
+    want = sand(key_ok, depth_ok)
+    try:
+        x = BIP32KeyData.b58decode("@input@")
+    except (BTClibValueError, BTClibTypeError):
+        return ex.refuse("refused", refused_only_what_the_rules_refuse=snot(want))
+    claims = {"accepted_only_what_the_rules_accept": want, "fields_are_the_payloads": sand(x.version == ver, x.depth == depth, x.parent_fingerprint == fp, x.index == index, x.key == payload[45:]),
+              "private_iff_private_version": x.is_private == bool(is_prv)}
+    ntype = _network.network_type_from_xkeyversion(ver)
+    claims["network_type_is_the_versions"] = sor(*[sand(sor(ver == bytes.fromhex(a), ver == bytes.fromhex(b)), ntype == t) for a, b, t in _SLIP132])
+    out = x.b58encode()
+    claims["written_back_is_the_payload_read"] = sand(len(codec.encoded) == 1, codec.encoded[0] == payload)
+    return claims
